@@ -12,7 +12,7 @@
 (***************************************************************************)
 EXTENDS Sweep, Stages, Json
 
-CONSTANTS Family,       \* "tri" | "pair" | "quad"
+CONSTANTS Family,       \* "tri" | "pair" | "pairB" | "nest" | "nest2" | "star3" | "quad"
           N, L,         \* lattice 0..N scaled by L
           Stride, Offset,   \* sub-sampling of the family (Stride = 1: everything)
           REPLAY        \* print REPLAY lines
@@ -55,6 +55,10 @@ FrLo == 0 - L
 FrHi == (N + 1) * L
 Frame == << << << <<FrLo, FrLo>>, <<FrHi, FrLo>>, <<FrHi, FrHi>>, <<FrLo, FrHi>>, <<FrLo, FrLo>> >> >> >>
 Ops == {"int", "union", "diff", "xor"}
+\* three triangles through one common least vertex (six left events in one point), unordered
+TKey(t) == ((t[2][1] \div L) * (N + 1) + (t[2][2] \div L)) * (N + 1) * (N + 1) + (t[3][1] \div L) * (N + 1) + (t[3][2] \div L)
+Rev(t) == <<t[1], t[3], t[2], t[1]>>
+FrameHoles(a, a2, a3) == << <<Frame[1][1], Rev(a), Rev(a2), Rev(a3)>> >>
 
 Init ==
   /\ labs = <<>>
@@ -71,6 +75,13 @@ Init ==
        [] Family = "nest2" -> \E b \in Tris : \E b2 \in Tris :      \* two parts inside a fixed frame: holes, sibling holes
                                 Lex(b[1], b2[1]) /\ Sel2(b, b2) /\ Compatible(b, b2)
                                 /\ \E o \in Ops : (SInit(Frame, TriMp(b) \o TriMp(b2), o) \/ SInit(TriMp(b) \o TriMp(b2), Frame, o))
+       [] Family = "star3" -> \E a \in Tris :
+                                \E a2 \in {t \in Tris : t[1] = a[1] /\ TKey(a) < TKey(t) /\ Compatible(a, t)} :
+                                \E a3 \in {t \in Tris : t[1] = a[1] /\ TKey(a2) < TKey(t) /\ Compatible(a, t) /\ Compatible(a2, t)} :
+                                \E b \in {t \in Tris : Sel3(a, a3, t)} :
+                                \E o \in Ops : \/ SInit(TriMp(a) \o TriMp(a2) \o TriMp(a3), TriMp(b), o)
+                                                \/ SInit(TriMp(b), TriMp(a) \o TriMp(a2) \o TriMp(a3), o)
+                                                \/ SInit(FrameHoles(a, a2, a3), TriMp(b), o)
        [] Family = "quad" -> \E a \in Quads : \E b \in Tris : Sel2(a, b) /\ \E o \in Ops : SInit(QuadMp(a), TriMp(b), o)
 
 Next == SNext /\ labs' = Append(labs, lab')
